@@ -455,7 +455,7 @@ Proof.
   destruct (u32 (Z.of_nat (length (e :: t)))) as [wn|] eqn:E2; cbn [bind] in H; [|discriminate].
   destruct (u32 (start + zlen (table_images (e :: t)))) as [wp|] eqn:E3; cbn [bind] in H; [|discriminate].
   destruct (u32 RELOC_MARKER) as [wm|] eqn:E4; cbn [bind] in H; [|discriminate].
-  injection H as <-. exists ent, wn, wp, wm. repeat split; assumption.
+  injection H as <-. exists ent, wn, wp, wm. repeat apply conj; try assumption; reflexivity.
 Qed.
 
 (* MultipleImageTable.parse (application ++ MultipleImageTable.export) gives the entries back and the place to cut *)
